@@ -34,11 +34,17 @@ RULE = (
 def scenario(r: random.Random) -> list[list[dict[str, Any]]]:
     nth = r.choice([2, 2, 3])
     progs = c07.gen_progs(r, nth, max_calls=2)
+    # a storage call appends exactly one record (`JournalStorage._write_log`): all-or-nothing is claimed per call
+    for p in progs:
+        for a in p:
+            if a["a"] == "append":
+                a["recs"] = a["recs"][:1]
     # make sure the victim (thread 0) appends, and every survivor appends + reads afterwards
     if not any(a["a"] == "append" for a in progs[0]):
         progs[0].append({"a": "append", "recs": [{"w": 0, "i": 50, "pad": "v" * r.choice([0, 9])}]})
     for t in range(1, nth):
-        progs[t].append({"a": "append", "recs": [{"w": t, "i": 90, "pad": ""}, {"w": t, "i": 91, "pad": "s"}]})
+        progs[t].append({"a": "append", "recs": [{"w": t, "i": 90, "pad": ""}]})
+        progs[t].append({"a": "append", "recs": [{"w": t, "i": 91, "pad": "s"}]})
         progs[t].append({"a": "read", "from": 0})
     return progs
 
@@ -131,7 +137,7 @@ def explore(chk: core.Check, n_scen: int, all_offsets: bool) -> None:
                 chk.count("crash:%s" % (rec["point"]["name"].split("(")[0] if rec["point"] else "none"))
                 chk.traces_validated += 1
             elif rec["kind"] == "violation":
-                p = rec["probs"][0]
+                p = next((x for x in rec["probs"] if x["kind"] == "takeover-race"), rec["probs"][0])
                 waiters = rec.get("n_threads", 2) - 1
                 chk.violation({"lock": lock_kind, "kind": p["kind"], "after_crash": rec.get("crashed") is not None, "waiters_ge_2": waiters >= 2},
                               {"lock": lock_kind, "progs": rec["progs"], "seed": rec["seed"], "crash": rec["point"], "died_at": rec["crash_event"]},
